@@ -253,6 +253,10 @@ static void run_sort() {
 	long long c = 0;
 	auto lt = [](const Item &a, const Item &b) { return a.key < b.key; };
 	auto gt = [](const Item &a, const Item &b) { return a.key > b.key; };
+	// strict PARTIAL orders (transitive, irreflexive, with incomparable elements): the postcondition "no earlier element satisfies
+	// comp(earlier, later)" is stated for any comp; an algorithm that stops at the first neighbour it is unordered with breaks it
+	auto nan_lt = [](const Item &a, const Item &b) { return a.key != 2 && b.key != 2 && a.key < b.key; };               // key 2 plays NaN: unordered with everything
+	auto ival = [](const Item &a, const Item &b) { int alo = a.key / 10, ahi = alo + a.key % 10, blo = b.key / 10; (void)alo; return ahi < blo; }; // key = 10*lo + length: interval order "a lies wholly before b"
 	// exhaustive: all arrays up to length 6 over 3 values (strict comparators; for a non-strict comparator such as <= no
 	// arrangement of equal keys can satisfy the postcondition, so the property is only meaningful for strict orders)
 	unsigned maxlen = opt.thorough() ? 8 : 6;
@@ -263,7 +267,8 @@ static void run_sort() {
 			begin_case("sort", c);
 			std::vector<Item> v; uint64_t y = x;
 			for(unsigned i = 0; i < len; i++) { v.push_back({(int)(y % 3), (int)i}); y /= 3; }
-			check_sort(v, lt, "lt"); check_sort(v, gt, "gt");
+			check_sort(v, lt, "lt"); check_sort(v, gt, "gt"); check_sort(v, nan_lt, "partial-order-with-unordered-element");
+			{ std::vector<Item> w = v; for(auto &it : w) it.key = it.key == 0 ? 1 : it.key == 1 ? 9 : 51; check_sort(w, ival, "interval-order"); } // [0,1], [0,9], [5,6]
 			note_distinct(mix(len, x));
 			count("sort_arrays");
 		}
@@ -282,6 +287,8 @@ static void run_sort() {
 			v.push_back({key, (int)k});
 		}
 		check_sort(v, lt, "lt"); check_sort(v, gt, "gt");
+		{ std::vector<Item> w = v; for(auto &it : w) it.key = (int)((unsigned)it.key % 5); check_sort(w, nan_lt, "partial-order-with-unordered-element");
+		  for(auto &it : w) it.key = (int)((unsigned)it.key * 7 % 90); check_sort(w, ival, "interval-order"); }
 		uint64_t h = len; for(auto &x : v) h = mix(h, x.key);
 		note_distinct(h);
 		count("sort_arrays");
